@@ -243,6 +243,15 @@ def int_normalise(V, op, r, q, rn):
     relations given by the path's guards on integer terms, eliminate and return the remaining polynomial (None if not applicable)"""
     from .intnorm import Norm, NormError
     bounds = {"as_int(s%d)" % i: 2 ** 32 - 1 for i in range(U32_OPERANDS.get(op, 0))}
+    # bounds established by the path's own guards (e.g. the u32 checks of U32ASSERT2)
+    for cond, val, loc in r.guards:
+        if isinstance(cond, Term) and cond.op in ("<=", ">", "<", ">=") and len(cond.args) == 2 and isinstance(cond.args[1], int):
+            tv = (val == ("not", [0])) if isinstance(val, tuple) else bool(val)
+            c = cond.args[1]
+            upper = {"<=": c if tv else None, ">": None if tv else c, "<": (c - 1) if tv else None, ">=": None if tv else c - 1}[cond.op]
+            if upper is not None:
+                k = repr(cond.args[0])
+                bounds[k] = min(bounds.get(k, upper), upper)
     N = Norm(bounds, procmodel.FELT_TERMS)
     sub = {}
     try:
